@@ -223,52 +223,50 @@ theorem fold_renderEventBody (out : List (Str × Str)) (e : Event) (h : Conforma
     (renderEventBody e).foldl stepLine (clean out) =
       { ev := e.name, data := e.data, out := out } := by
   simp only [Conformant, Bool.and_eq_true] at h
-  obtain ⟨⟨_, hd⟩, hn⟩ := h
+  obtain ⟨⟨ha, hd⟩, hn⟩ := h
   simp only [renderEventBody, List.foldl_append]
   cases hname : e.name with
   | none =>
     simp only [List.foldl_nil]
-    rw [fold_renderData _ _ _ hd]
+    rw [fold_renderData _ _ _ hd, fold_ignored _ _ ha]
     simp [clean]
   | some n =>
     simp only [hname, Bool.and_eq_true] at hn
     rw [fold_renderField _ _ n e.nameChoice (by decide) (by decide) (by decide) hn.1.1 hn.2]
-    rw [fold_renderData _ _ _ hd]
+    rw [fold_renderData _ _ _ hd, fold_ignored _ _ ha]
     simp [clean, sEvent, strip_id n hn.1.2]
-
-theorem dispatch_event (out : List (Str × Str)) (e : Event) (h : Conformant e = true) :
-    dispatch { ev := e.name, data := e.data, out := out } =
-      clean (out ++ [(effType e.name, joinNl e.data)]) := by
-  have hne : e.data ≠ [] := by
-    simp only [Conformant, Bool.and_eq_true] at h
-    intro h0; simp [h0] at h
-  simp [dispatch, hne]
-
-theorem fold_renderEvent (out : List (Str × Str)) (e : Event) (h : Conformant e = true) :
-    (renderEvent e).foldl stepLine (clean out) =
-      clean (out ++ [(effType e.name, joinNl e.data)]) := by
-  simp only [renderEvent, List.foldl_append, fold_renderEventBody out e h, List.foldl_cons, List.foldl_nil]
-  simp only [stepLine, if_true]
-  exact dispatch_event out e h
 
 def evOut (e : Event) : Str × Str := (effType e.name, joinNl e.data)
 
+/-- what one event dispatches: nothing when it has no data line -/
+def evOuts (e : Event) : List (Str × Str) := if e.data = [] then [] else [evOut e]
+
+theorem dispatch_event (out : List (Str × Str)) (e : Event) :
+    dispatch { ev := e.name, data := e.data, out := out } = clean (out ++ evOuts e) := by
+  by_cases hne : e.data = [] <;> simp [dispatch, evOuts, evOut, clean, hne]
+
+theorem fold_renderEvent (out : List (Str × Str)) (e : Event) (h : Conformant e = true) :
+    (renderEvent e).foldl stepLine (clean out) = clean (out ++ evOuts e) := by
+  simp only [renderEvent, List.foldl_append, fold_renderEventBody out e h, List.foldl_cons, List.foldl_nil]
+  simp only [stepLine, if_true]
+  exact dispatch_event out e
+
 theorem fold_renderLines (out : List (Str × Str)) (evs : List Event)
     (h : ∀ e ∈ evs, Conformant e = true) :
-    (renderLines evs).foldl stepLine (clean out) = clean (out ++ evs.map evOut) := by
+    (renderLines evs).foldl stepLine (clean out) = clean (out ++ evs.flatMap evOuts) := by
   induction evs generalizing out with
   | nil => simp [renderLines]
   | cons e es ih =>
     simp only [renderLines, List.flatMap_cons, List.foldl_append] at *
     rw [fold_renderEvent out e (h e (by simp)), ih _ (fun x hx => h x (by simp [hx]))]
-    simp [evOut]
+    simp
 
 theorem dispatch_clean (out : List (Str × Str)) : dispatch (clean out) = clean out := by
   simp [dispatch, clean]
 
 /-- line level: every event of every conformant rendering is recovered, in order -/
 theorem parseLines_render (evs : List Event) (h : ∀ e ∈ evs, Conformant e = true) :
-    parseLines (renderLines evs) = evs.map evOut := by
+    parseLines (renderLines evs) = evs.flatMap evOuts := by
   unfold parseLines
   rw [fold_renderLines [] evs h, dispatch_clean]
   simp [clean]
@@ -335,16 +333,19 @@ theorem noBreak_renderData (ds : List Str) (cs : List FieldChoice) (h : okData d
 
 theorem noBreak_renderEvent (e : Event) (h : Conformant e = true) : NoBreakLines (renderEvent e) := by
   simp only [Conformant, Bool.and_eq_true] at h
-  obtain ⟨⟨_, hd⟩, hn⟩ := h
+  obtain ⟨⟨ha, hd⟩, hn⟩ := h
   intro l hl
-  simp only [renderEvent, renderEventBody, List.mem_append, List.mem_singleton] at hl
-  rcases hl with (hl | hl) | rfl
+  simp only [renderEvent, renderEventBody, List.mem_append, List.mem_singleton, List.mem_map] at hl
+  rcases hl with ((hl | hl) | ⟨ig, hig, rfl⟩) | rfl
   · cases hname : e.name with
     | none => simp [hname] at hl
     | some n =>
       simp only [hname, Bool.and_eq_true] at hn hl
       exact noBreak_renderField sEvent n e.nameChoice (by decide) hn.1.1 hn.2 l hl
   · exact noBreak_renderData _ _ hd l hl
+  · exact noBreak_ignored ig (by
+      simp only [List.all_eq_true] at ha
+      exact ha ig hig)
   · decide
 
 theorem noBreak_renderLines (evs : List Event) (h : ∀ e ∈ evs, Conformant e = true) :
@@ -371,7 +372,7 @@ theorem renderLines_dropLast (evs : List Event) (hne : evs ≠ []) :
 /-- text level: the parser recovers every event of every conformant rendering -/
 theorem parseText_render (evs : List Event) (eols : List Bool) (tail : Tail)
     (h : ∀ e ∈ evs, Conformant e = true) :
-    parseText (renderText evs eols tail) = evs.map evOut := by
+    parseText (renderText evs eols tail) = evs.flatMap evOuts := by
   have hnb := noBreak_renderLines evs h
   cases tail with
   | full =>
@@ -390,17 +391,12 @@ theorem parseText_render (evs : List Event) (eols : List Bool) (tail : Tail)
     · have hnb' : NoBreakLines (renderLines evs).dropLast :=
         fun l hl => hnb l (List.dropLast_subset _ hl)
       by_cases hd : (renderLines evs).dropLast = []
-      · -- impossible: a conformant event has at least one data line
-        exfalso
-        obtain ⟨e, es, rfl⟩ := List.exists_cons_of_ne_nil hne
-        have hc := h e (by simp)
-        have : e.data ≠ [] := by
-          simp only [Conformant, Bool.and_eq_true] at hc
-          intro h0; simp [h0] at hc
-        obtain ⟨d, ds, hdd⟩ := List.exists_cons_of_ne_nil this
-        have hlen := congrArg List.length hd
-        simp [renderLines, renderEvent, renderEventBody, hdd, renderField] at hlen
-        cases hcs : e.dataChoices <;> simp [hcs, renderData, renderField] at hlen <;> omega
+      · -- nothing but the final blank line was rendered (data-less, nameless events only)
+        have h1 : renderLines evs = [[]] := by rw [← renderLines_dropLast evs hne, hd]; rfl
+        have h2 : parseText (renderText evs eols Tail.noEol) = parseLines [[]] := by
+          simp [parseText, renderText, hd, joinEols, splitLF, rstripCR]
+        rw [h2, ← h1]
+        exact parseLines_render evs h
       · simp only [parseText, renderText, split_joinEols _ eols hnb' hd]
         rw [← parseLines_snoc_blank, renderLines_dropLast evs hne]
         exact parseLines_render evs h
